@@ -10,7 +10,7 @@ import z3
 
 from pyvc import specz3
 from pyvc.sym import (I, B, A, A2, iv, add, sub, lit, fresh, fresh_seq, Seq, Tup, Mat, Row, Obj, FloatV, NONE, NoneV, const_str,
-                      const_list, seq_eq, const_mat, MaskV, ZipSeq, MaybeFloat, PairSeq, LazySeq, MatLazy, DictV)
+                      const_list, seq_eq, const_mat, MaskV, ZipSeq, MaybeFloat, PairSeq, LazySeq, MatLazy, DictV, NpInt)
 
 Z3_TIMEOUT_MS = int(os.environ.get("PYVC_Z3_TIMEOUT_MS", "20000"))
 CVC5_TIMEOUT_S = int(os.environ.get("PYVC_CVC5_TIMEOUT_S", "40"))
@@ -77,9 +77,15 @@ def make_solver(timeout_ms):
     return s
 
 
+def is_opaque(v):
+    return isinstance(v, tuple) and len(v) >= 1 and v[0] == "opaque"
+
+
 def tobool(v):
     if isinstance(v, bool):
         return z3.BoolVal(v)
+    if isinstance(v, NpInt):
+        return v.value != 0
     if z3.is_expr(v) and z3.is_bool(v):
         return v
     if z3.is_expr(v) and z3.is_int(v):
@@ -92,7 +98,7 @@ def tobool(v):
 
 
 def toint(v):
-    if isinstance(v, MaybeFloat):
+    if isinstance(v, (MaybeFloat, NpInt)):
         return v.value
     if isinstance(v, bool):
         return iv(int(v))
@@ -320,6 +326,9 @@ class Exec:
             for p in new:
                 st.pc.append(z3.Implies(g_all, p) if g_all is not None else p)
             vals.append(v)
+            vs_ = z3.simplify(v)
+            if (isinstance(e.op, ast.And) and z3.is_false(vs_)) or (isinstance(e.op, ast.Or) and z3.is_true(vs_)):
+                break           # Python's short circuit: the remaining operands are not evaluated (they may not even be well-defined)
             guards.append(v if isinstance(e.op, ast.And) else z3.Not(v))
         return z3.And(*vals) if isinstance(e.op, ast.And) else z3.Or(*vals)
 
@@ -363,6 +372,11 @@ class Exec:
             raise Unsupported("sequence ordering")
         if isinstance(l, FloatV) or isinstance(r, FloatV):
             return self.float_compare(op, l, r)
+        if isinstance(l, (Mat, MatLazy)) and not isinstance(r, (Mat, MatLazy, Seq, ZipSeq, LazySeq)):
+            c = toint(r)                  # element-wise comparison of a numpy matrix with a scalar: a boolean matrix
+            f = {ast.Eq: lambda v: v == c, ast.NotEq: lambda v: v != c, ast.Lt: lambda v: v < c, ast.LtE: lambda v: v <= c,
+                 ast.Gt: lambda v: v > c, ast.GtE: lambda v: v >= c}[type(op)]
+            return MatLazy(l.rows, l.cols, lambda r_, c_, l=l, f=f: z3.If(f(l.at(r_, c_)), iv(1), iv(0)), "bool")
         if (isinstance(l, (ZipSeq, LazySeq)) or (isinstance(l, Seq) and l.kind == "nd")) and not isinstance(r, (Seq, ZipSeq, LazySeq)):
             c = toint(r)
             f = {ast.Eq: lambda v: v == c, ast.NotEq: lambda v: v != c, ast.Lt: lambda v: v < c, ast.LtE: lambda v: v <= c,
@@ -448,9 +462,34 @@ class Exec:
 
     def ev_BinOp(self, e, st):
         l, r = self.ev(e.left, st), self.ev(e.right, st)
+        if isinstance(l, NpInt) or isinstance(r, NpInt):
+            return self.npint_binop(e, l, r, st)
         return self.binop(e.op, l, r, st, e.lineno)
 
+    def npint_binop(self, e, l, r, st):
+        """numpy int64 scalar (op) Python int: the Python int is converted to int64 first; OverflowError when it does not fit (NEP 50)."""
+        for side, other in ((e.right, r), (e.left, l)):
+            if isinstance(e.op, ast.Div):
+                break                   # true division converts through float: no OverflowError (selftest/library_conformance.py)
+            if isinstance(other, NpInt) or not (z3.is_expr(other) or isinstance(other, int)):
+                continue
+            o = toint(other)
+            lo_ = lit(o)
+            is_len = isinstance(side, ast.Call) and isinstance(side.func, ast.Name) and side.func.id == "len"      # len() <= sys.maxsize < 2**63
+            if is_len or (lo_ is not None and -2 ** 63 <= lo_ < 2 ** 63):
+                continue
+            self.trusted_used.add("numpy int64 scalar (op) Python int raises OverflowError exactly when the int is outside [-2**63, 2**63)")
+            self.may_raise(st, "OverflowError", z3.Or(o < iv(-2 ** 63), o >= iv(2 ** 63)), f"python-int-fits-int64:{self.ordinal('npint')}", e.lineno)
+        both_np = isinstance(l, NpInt) and isinstance(r, NpInt)
+        lv_, rv_ = (l.value if isinstance(l, NpInt) else l), (r.value if isinstance(r, NpInt) else r)
+        out = self.binop(e.op, lv_, rv_, st, e.lineno)
+        if z3.is_expr(out) and z3.is_int(out):
+            return NpInt(out)
+        return out
+
     def binop(self, op, l, r, st, line):
+        if is_opaque(l) or is_opaque(r):
+            return ("opaque", "expr")
         if isinstance(l, (Mat, MatLazy)) and not isinstance(r, (Mat, MatLazy, Seq)) and isinstance(op, (ast.Add, ast.Sub)):
             c_ = toint(r)
             f_ = (lambda x: x + c_) if isinstance(op, ast.Add) else (lambda x: x - c_)
@@ -490,6 +529,13 @@ class Exec:
         raise Unsupported(f"binary operator {type(op).__name__}")
 
     def float_binop(self, op, l, r, st, line):
+        if isinstance(op, ast.Div) and isinstance(l, FloatV) and isinstance(r, FloatV) and getattr(l, "tag", (None,))[0] == "log" \
+                and getattr(r, "tag", (None,))[0] == "log":
+            from pyvc import library
+            self.may_raise(st, "ZeroDivisionError", r.tag[1] == 1, f"division:{self.ordinal('div')}", line)     # log(1) == 0.0 (numpy: a warning and inf, not an exception - stricter here)
+            out = FloatV(library.FDIV(l.term, r.term))
+            out.tag = ("logratio", l.tag[1], r.tag[1])
+            return out
         # only  float * int  (gc_range[i] * observed_length)  and  (1 - float)  are modelled, as opaque reals
         if isinstance(op, ast.Mult):
             f, n = (l, r) if isinstance(l, FloatV) else (r, l)
@@ -596,6 +642,8 @@ class Exec:
         return z3.If(idx < 0, idx + base_n, idx)
 
     def subscript(self, base, sl, st, line, base_expr=None):
+        if is_opaque(base):
+            return ("opaque", base[1] + "[]")          # an element of an opaque collection (exceptions of the subscript itself are not covered)
         if isinstance(base, Tup):
             k = lit(toint(self.ev(sl, st)))
             if k is None:
@@ -703,6 +751,10 @@ class Exec:
         if isinstance(g.iter, ast.Call) and isinstance(g.iter.func, ast.Name) and g.iter.func.id == "range" and len(g.iter.args) == 1 \
                 and not any(isinstance(x, ast.Name) and isinstance(g.target, ast.Name) and x.id == g.target.id for x in ast.walk(e.elt)):
             n = toint(self.ev(g.iter.args[0], st))
+            if isinstance(e.elt, ast.Call) and isinstance(e.elt.func, ast.Name) and e.elt.func.id == "set" and not e.elt.args:
+                if lit(n) is None or lit(n) > 8:
+                    raise Unsupported("a symbolic number of sets")
+                return Tup([self.ev(e.elt, st) for _ in range(max(lit(n), 0))])
             v = toint(self.ev(e.elt, st))
             cntv = z3.simplify(z3.If(n > 0, n, 0))
             out = fresh_seq("fill", "list", "int", n=cntv)
@@ -814,10 +866,34 @@ class Exec:
             return True
         return False
 
+    PURE_LIBRARY = {"array", "list", "Counter", "argsort", "sorted", "len", "max", "min", "sum", "tuple", "set", "str", "int"}
+
     def exec_stmt(self, s, st):
         if self.is_opaque_stmt(s):
             self.skipped_opaque = getattr(self, "skipped_opaque", 0) + 1
             return [Outcome("normal", st)]
+        tail = self.c.get("opaque_tail", ())
+        if tail and isinstance(s, ast.Assign) and len(s.targets) == 1 and isinstance(s.targets[0], ast.Name) and s.targets[0].id in tail:
+            # a statement `name = <expression over the listed names and pure library calls only>` outside the modelled subset: `name` becomes
+            # opaque instead of the unit being undecided.  Sound for obligations that do not mention the name: such a statement reads and writes
+            # nothing else (checked syntactically here); exceptions it could raise are NOT covered (the contract's note says so).
+            names = {x.id for x in ast.walk(s.value) if isinstance(x, ast.Name)}
+            if names <= set(tail) | self.PURE_LIBRARY:
+                if any(isinstance(st.env.get(n_), tuple) and st.env.get(n_)[:1] == ("opaque",) for n_ in names & set(tail)):
+                    st.env[s.targets[0].id] = ("opaque", s.targets[0].id)
+                    self.skipped_opaque = getattr(self, "skipped_opaque", 0) + 1
+                    return [Outcome("normal", st)]
+                t = st.clone()
+                keep = list(self.pending)
+                try:
+                    outs = self.st_Assign(s, t)
+                    self.flush_defer(t)
+                    return outs + self.drain()
+                except Unsupported:
+                    self.pending = keep
+                    st.env[s.targets[0].id] = ("opaque", s.targets[0].id)
+                    self.skipped_opaque = getattr(self, "skipped_opaque", 0) + 1
+                    return [Outcome("normal", st)]
         m = getattr(self, "st_" + type(s).__name__, None)
         if m is None:
             raise Unsupported(f"statement {type(s).__name__} at line {s.lineno}")
@@ -865,8 +941,18 @@ class Exec:
                 st.aliased.add(tgt.id)
                 st.aliased.add(s.value.id)
             hint = self.c.get("types", {}).get(tgt.id)
+            if hint == "str" and is_opaque(v):
+                v = fresh_seq(tgt.id, "str", "char")            # a string built from opaque pieces: any string
+                st.assume(v.n >= 0)
+            from pyvc.calls import PySet, Coll
+            if isinstance(v, PySet) and not v.items and tgt.id in self.c.get("collections", {}):
+                v = Coll(tgt.id)
+            if isinstance(v, Seq) and v.kind == "list" and lit(v.n) == 0 and tgt.id in self.c.get("collections", {}):
+                v = Coll(tgt.id, "plainlist")          # the collection is built as a LIST: duplicates are possible
             if hint == "list_char" and isinstance(v, Seq) and v.kind == "list" and lit(v.n) == 0:
                 v = Seq("list", "char", v.arr, v.n, v.start, v.delta)      # an empty list that will hold single characters
+            if hint == "list_obj" and isinstance(v, Seq) and v.kind == "list" and lit(v.n) == 0:
+                v = Tup([])                                                  # an empty list that will hold strings / arrays
             if hint == "list_pair" and isinstance(v, Seq) and v.kind == "list" and lit(v.n) == 0:
                 v = PairSeq(const_list([]), const_list([]))                  # an empty list that will hold 2-tuples of ints
             st.env[tgt.id] = v
@@ -901,6 +987,15 @@ class Exec:
                 new_order = Seq(base.order.kind, base.order.elem, z3.If(base.has[k_], base.order.arr, seq_append(base.order, k_).arr),
                                 z3.If(base.has[k_], base.order.n, base.order.n + 1), base.order.start, base.order.delta)
                 st.env[name] = DictV(z3.Store(base.has, k_, z3.BoolVal(True)), z3.Store(base.varr, k_, v.arr), z3.Store(base.vlen, k_, v.n), new_order)
+                return
+            if isinstance(base, Tup):                       # a Python list of objects (strings, arrays): element replaced at a literal position
+                k_ = lit(toint(self.ev(tgt.slice, st)))
+                if k_ is None or not (-len(base.items) <= k_ < len(base.items)):
+                    raise Unsupported("store into a list of objects at a symbolic / out-of-range position")
+                self.frame_store(st, name, line)
+                items = list(base.items)
+                items[k_] = v
+                st.env[name] = Tup(items)
                 return
             if isinstance(base, Seq) and base.kind in ("list", "nd"):
                 if name in st.aliased:
@@ -965,6 +1060,9 @@ class Exec:
             v = self.binop(s.op, cur, self.ev(s.value, st), st, s.lineno)
             if isinstance(cur, Seq) and cur.kind in ("list", "nd") and s.target.id in st.aliased:
                 raise Unsupported("augmented assignment on a possibly aliased list")
+            if is_opaque(v) and self.c.get("types", {}).get(s.target.id) == "str":
+                v = fresh_seq(s.target.id, "str", "char")            # a string built from opaque pieces: any string
+                st.assume(v.n >= 0)
             st.env[s.target.id] = v
             return [Outcome("normal", st)]
         if isinstance(s.target, ast.Subscript):
@@ -1180,6 +1278,12 @@ class Exec:
             if not isinstance(src, (Seq,)):
                 raise Unsupported("enumerate over a non-sequence")
             return src.n, lambda t, i, tgt: self.assign(tgt, Tup([i, self.element(src, i)]), t, None)
+        if isinstance(it, ast.Call) and isinstance(it.func, ast.Name) and it.func.id == "product" and len(it.args) == 1 \
+                and isinstance(it.args[0], ast.Starred) and not it.keywords:
+            srcs = self.ev(it.args[0].value, st)
+            if isinstance(srcs, Tup) and len(srcs.items) == 0:
+                return ("unroll", [Tup([])])            # itertools.product() of no iterables yields exactly one empty tuple
+            raise Unsupported("itertools.product of a non-empty family")
         src = self.ev(it, st)
         self._last_iter_maxlen = getattr(src, "maxlen", None) if isinstance(src, Seq) and lit(src.n) is None else None
         if isinstance(src, Seq):
@@ -1195,10 +1299,54 @@ class Exec:
             return src.at(i) != 0
         return src.at(i)
 
+    def havoc_loop(self, s, st, n):
+        """a for loop over an opaque collection (contract key havoc_loops): the body is executed once from a state in which everything the loop
+        assigns is unconstrained (all its obligations are proved for every iteration), and execution continues after the loop from such a state
+        too (which covers zero iterations).  No invariant is kept: only facts about variables the loop does not assign survive."""
+        names = self.assigned_names(s)
+        hints = self.c.get("types", {})
+
+        def wipe(t):
+            self.havoc(t, names)
+            for nme in sorted(names):
+                v = t.env.get(nme)
+                if nme not in t.env or is_opaque(v):
+                    h_ = hints.get(nme)
+                    if h_ == "str":
+                        t.env[nme] = fresh_seq(nme, "str", "char")
+                        t.assume(t.env[nme].n >= 0)
+                    elif h_ in ("int", "nat"):
+                        t.env[nme] = fresh(nme)
+                        if h_ == "nat":
+                            t.assume(t.env[nme] >= 0)
+                    elif h_ == "bool":
+                        t.env[nme] = fresh(nme, B)
+                    else:
+                        t.env[nme] = ("opaque", nme)
+        h = st.clone()
+        wipe(h)
+        is_range = isinstance(s.iter, ast.Call) and isinstance(s.iter.func, ast.Name) and s.iter.func.id == "range"
+        for x in ast.walk(s.target):
+            if isinstance(x, ast.Name):
+                if is_range:
+                    h.env[x.id] = fresh(x.id)
+                else:
+                    h.env[x.id] = ("opaque", x.id)
+        outs = []
+        for o in self.exec_block(s.body, h):
+            if o.kind not in ("normal", "continue", "break"):
+                outs.append(o)
+        a = st.clone()
+        wipe(a)
+        self.havoc_loops_run = getattr(self, "havoc_loops_run", 0) + 1
+        return [Outcome("normal", a)] + outs
+
     def st_For(self, s, st):
         n = self.loop_ids[id(s)]
         if s.orelse:
             raise Unsupported("for-else")
+        if n in self.c.get("havoc_loops", ()):
+            return self.havoc_loop(s, st, n)
         space = self.iter_space(s.iter, st, s.lineno)
         raised = self.drain()
         spec = self.loop_spec(n, s)
@@ -1313,6 +1461,7 @@ class Exec:
         if is_for:
             h.assume(i < count)
         self.assume_invs(h, spec)
+        shapes0 = {nm: self.tup_shape(h.env.get(nm)) for nm in names if isinstance(h.env.get(nm), Tup)}
         outs = []
         if is_for:
             bind(h, i, s.target)
@@ -1339,6 +1488,9 @@ class Exec:
                 t = o.st
                 for t2 in self.exec_ghost_ast(g_end, t, f"loop{n}_end"):
                     t2.env["_i"] = t2.env[f"_i{n}"] = i + 1
+                    for nm, sh in shapes0.items():          # a Python-level list of objects keeps its length around the loop (it is part of the cut state)
+                        if self.tup_shape(t2.env.get(nm)) != sh:
+                            self.prove(t2, f"loop{n}:shape-preserved:{nm}", z3.BoolVal(False), line)
                     self.check_invs(t2, n, spec, "inv-preserved", line)
                     if var0 is not None:
                         self.quiet += 1
@@ -1376,6 +1528,11 @@ class Exec:
                     res.append(Outcome("normal", g))
         return res + outs
 
+    def tup_shape(self, v):
+        if isinstance(v, Tup):
+            return ("tup",) + tuple(self.tup_shape(x) for x in v.items)
+        return type(v).__name__
+
     def exec_ghost_ast(self, tree, st, anchor):
         if not tree:
             return [st]
@@ -1397,6 +1554,37 @@ class Exec:
         return speclang.evaluate(self, txt, st, extra or {})
 
     # ------------------------------------------------------------------ whole function
+    def start_body(self, st):
+        """PARTIAL contract `start_at`: symbolic execution begins at the first top-level statement that assigns the named variable; the locals the
+        skipped prefix assigns are unconstrained values of the shapes the contract declares (so every obligation is proved for ALL values the prefix
+        could have produced).  Checked here: the prefix assigns no parameter and every local it assigns is declared.  Not covered: exceptions and
+        non-termination of the prefix, in-place modification of parameter objects by the prefix (frame analysis, C20)."""
+        sa = self.c.get("start_at")
+        body = self.fn.body
+        if not sa:
+            return body
+        from pyvc import shapes
+        idx = None
+        for k_, stmt in enumerate(body):
+            if isinstance(stmt, ast.Assign) and any(isinstance(x, ast.Name) and x.id == sa["assign"] for t in stmt.targets for x in ast.walk(t)):
+                idx = k_
+                break
+        if idx is None:
+            raise Unsupported(f"no top-level assignment to {sa['assign']} (sidecar no longer binds)")
+        params = {a.arg for a in self.fn.args.args}
+        assigned = set()
+        for stmt in body[:idx]:
+            assigned |= self.assigned_names(stmt)
+        if assigned & params:
+            raise Unsupported(f"the skipped prefix assigns parameter(s) {sorted(assigned & params)} (sidecar no longer binds)")
+        for nme in sorted(assigned):
+            shape = sa.get("locals", {}).get(nme)
+            if shape is None:
+                raise Unsupported(f"the skipped prefix assigns {nme}, which the sidecar does not declare (sidecar no longer binds)")
+            st.env[nme] = ("opaque", nme) if shape == "opaque" else shapes.fresh_of(self, st, shape, nme)
+        self.skipped_prefix = idx
+        return body[idx:]
+
     def run(self):
         from pyvc import shapes
         if self.binding_error:
@@ -1459,8 +1647,9 @@ class Exec:
         self.entry = st.clone()
         self.entry_pc = list(st.pc)
         outs = []
+        body = self.start_body(st)
         for g in self.ghost("entry", st):
-            outs += self.exec_block(self.fn.body, g)
+            outs += self.exec_block(body, g)
         n_ret = n_raise = 0
         for o in outs:
             if o.kind == "normal":
